@@ -42,9 +42,9 @@ async def run_history(sc):
                                build_scoped(ag.engine, b"", build_pdu(REPORT, q.get("reqid", 0), 0, 0, [])))
         return raw
     c = Client("192.0.2.1", drv_usm.make_creds(sc), sender=sender)
-    real_t, real_u = _t.time, U.time
-    _t.time = lambda: clock[0]
-    U.time = lambda: clock[0]
+    import puresnmp.api.raw, puresnmp_plugins.security.usm  # noqa
+    _clk = patched_clock(lambda: clock[0], monotonic=True)     # no event-loop timers are used in this driver
+    _clk.__enter__()
     events = []
     try:
         for step in sc["history"]:
@@ -70,7 +70,7 @@ async def run_history(sc):
                 clock[0] += step
                 events.append(dict(e="advance", d=step))
     finally:
-        _t.time, U.time = real_t, real_u
+        _clk.__exit__(None, None, None)
     return dict(scenario=sc, events=events)
 
 
